@@ -2,7 +2,7 @@
 namespace BdModel.Canon.Sched
 
 /-- hash of the normalised skeleton of Schedule (internal/dag/scheduler/scheduler.go) -/
-def h_sched_Schedule : Nat := 0x2ee8de192722c1e3
+def h_sched_Schedule : Nat := 0x86304ac014d3c816
 
 /-- hash of the normalised skeleton of isReady (internal/dag/scheduler/scheduler.go) -/
 def h_sched_isReady : Nat := 0xfa451317c79e8e2a
